@@ -442,6 +442,39 @@ def check_map(run, name, grp, coords, shape, exprs, descr, plan):
                          f"[{'; '.join(f'({a}, {b})' for a, b in coords)}] "
                          f"[{'; '.join(ofl(v) for v in want)}]) {obs}")
             descr.append(f"pixels {name} {short}")
+        # a second look through the SAME QMap object after the curves moved
+        # on (fitted curves rated with another regressor): the rating map
+        # shows the ratings the curves carry now
+        try:
+            with warnings.catch_warnings():
+                warnings.simplefilter("ignore")
+                moved = 0
+                for i in grp:
+                    if i.fit_properties.get("success") and "E" in \
+                            i.fit_properties["params_fitted"]:
+                        i.rate_quality(regressor="Extra Trees")
+                        moved += 1
+                x, y, m = qm.get_qmap("fit: rating")
+            exp = np.full((yn, xn), np.nan)
+            for (cx, cy), i in zip(coords, grp):
+                r = i._rating
+                if r is not None and r[0] == i.fit_properties.get("hash",
+                                                                  "none"):
+                    exp[cy, cx] = float(r[-1])
+            run.case({"map": name, "second-look": moved, "plan": plan},
+                     kind="map:rating-second-look")
+            if m.shape != exp.shape or not np.array_equal(m, exp,
+                                                          equal_nan=True):
+                run.failing(SITE_Q, f"map:{name}:rating|second-look",
+                            f"{name}: after {moved} curves were rated again, "
+                            "the rating map of the same QMap object does not "
+                            f"show their current ratings (plan {plan})",
+                            payload={"kind": "rerun"},
+                            theorem="C20_values")
+        except BaseException as e:
+            run.failing(SITE_Q, f"map:{name}:rating|second-look|raised",
+                        f"{name}: second look raised {type(e).__name__}: {e}",
+                        payload={"kind": "rerun"}, theorem="C20_values")
         # Coq: per-curve feature values from the curve state
         for j, i in enumerate(grp):
             fp = i.fit_properties
